@@ -343,6 +343,19 @@ def parseSideTables (s : String) : Option (List (Bytes × Bytes)) :=
       pure (name, data)
     | _ => none
 
+def parseCmapEntry (s : String) : Option (CmapTable.Key × Bytes) :=
+  match s.splitOn ":" with
+  | [k, d] =>
+    match k.splitOn "." with
+    | [p, e, l] => do
+      let pp ← p.toNat?
+      let ee ← e.toNat?
+      let ll ← l.toNat?
+      let data ← fromHex d
+      pure (⟨pp, ee, ll⟩, data)
+    | _ => none
+  | _ => none
+
 def parseFileFont (fs : List (String × String)) : Option (FontFile.FileFont × (Int × Int)) := do
   let M ← parseMeta fs
   let gly ← getField fs "gly"
@@ -357,7 +370,15 @@ def parseFileFont (fs : List (String × String)) : Option (FontFile.FileFont × 
       pure (x, y)
     | _ => none
   let ws := M.outline.widthList.map Dy.trunc
-  pure ({ scalars := M, glyphs := gs, widths := ws, maxpTtf := mx, sideTables := tabs }, (rise, run))
+  let cmt ← getField fs "cmt"
+  let cm ← if cmt == "-" then some none else
+    ((if cmt.isEmpty then some [] else (cmt.splitOn ",").mapM parseCmapEntry).map some)
+  let gn ← getField fs "gn"
+  let names ← if gn == "-" then some none else
+    (let body : String := String.ofList (gn.toList.drop 1)
+     (if body.isEmpty then some [] else (body.splitOn ",").mapM fun h => (fromHex h).map (·.map (·.toNat))).map some)
+  pure ({ scalars := M, glyphs := gs, widths := ws, maxpTtf := mx, sideTables := tabs,
+          cmap := cm, glyphNames := names }, (rise, run))
 
 def prefixes : List String := ["font."]
 
@@ -412,6 +433,8 @@ def handle (op : String) (fs : List (String × String)) : String :=
             "differ:" ++ ",".intercalate (diffKeys (metaFields r.font) (metaFields (FontFile.nfFile F).font)) ++
             (if r.glyphs == F.glyphs then "" else ",glyphs") ++
             (if r.maxpTtf == some F.maxpTtf then "" else ",maxp") ++
+            (if r.cmap == F.cmap then "" else ",cmap") ++
+            (if r.glyphNames == F.glyphNames then "" else ",glyphnames") ++
             (if r.sideTables == (FontFile.nfFile F).sideTables then "" else ",sidetables")
         | .err e => "read-err:" ++ e
         | .panic s => "read-panic:" ++ s
